@@ -77,6 +77,27 @@ def expectedOuts (c : Chan) : List (Command × Bytes) → List (Option (Chan × 
 def streamOf (c : Chan) (msgs : List (Command × Bytes)) : List Bytes :=
   (msgs.map (fun x => packets c x.1 x.2)).flatten
 
+/-- a continuation-shaped report: 64 bytes with bit 7 of the fifth byte clear -/
+def isContPacket (p : Bytes) : Bool := p.length == packetSize && (match p[4]? with | some b => b.toNat < 128 | none => false)
+
+/-- the statement's reading of a channel's *whole* stream when it consists of the declared messages, each possibly followed
+by stray continuation packets: no message was ever left unfinished on the channel, so nothing is in progress once a
+message was delivered and each stray yields nothing.  What the receiver must return packet by packet, or `none` if the
+stream is not of that shape.  (After an abandoned transfer the statement does not say whether that transfer is still
+"in progress" when a later single-packet message has been delivered — the library keeps it, and strays then complete
+it — so streams with an abandoned prefix are judged on their messages only, `allowStrays = false`.) -/
+def expectedWithStrays (allowStrays : Bool) (c : Chan) : List (Command × Bytes) → List Bytes → Option (List (Option (Chan × Command × Bytes)))
+  | [], s => if s.isEmpty then some [] else none
+  | (cmd, d) :: rest, s =>
+    let e := packets c cmd d
+    if s.take e.length == e then
+      let after := s.drop e.length
+      let strays := if allowStrays then after.takeWhile isContPacket else []
+      match expectedWithStrays allowStrays c rest (after.drop strays.length) with
+      | some tail => some (expectedOuts c [(cmd, d)] ++ strays.map (fun _ => none) ++ tail)
+      | none => none
+    else none
+
 /-- `pkts` is an interleaving of the labelled streams `ss` that keeps each stream's own order -/
 inductive IsMerge : List (Chan × List Bytes) → List Bytes → Prop
   | done (ss : List (Chan × List Bytes)) : (∀ s ∈ ss, s.2 = []) → IsMerge ss []
